@@ -87,18 +87,21 @@ def rule_eq_text(ctx: RuleContext, p: Program, rid: str) -> None:
                   'are different tokens and models that contain them are different models')
     n = 0
     base = p.cls('RawTokenModel', 'models.base')
+    seen: set[int] = set()
     for c in [base, *base.all_subclasses()]:
-        eq = c.attrs.get('__eq__')
-        if not isinstance(eq, FuncInfo):
+        eq = c.lookup('__eq__')                     # whatever class of the MRO supplies it (mixins included)
+        if not isinstance(eq, FuncInfo) or id(eq) in seen:
             continue
+        seen.add(id(eq))
         n += 1
+        owner = eq.cls or c
         compared = _self_reads(eq) & _self_reads(eq, eq.params[1])
         delegates = any(isinstance(x, ast.Call) and norm(x.func) == 'super().__eq__' for x in ast.walk(eq.node))
         ok = bool(compared & {'raw_text', '_raw_text'}) or delegates
-        ctx.check(ok, rid, f'{c.module.name.split(".", 1)[1]}:{c.name}.__eq__', f'compares {sorted(compared)}',
-                  f'{c.name}.__eq__ compares {sorted(compared)} but not the raw text: tokens with different text and the same derived value '
-                  f'compare equal, and through the token-list comparison of RawTreeModel.__eq__ so do whole models whose printed text differs',
-                  eq.where, note=f'compares {sorted(compared)}')
+        ctx.check(ok, rid, f'{owner.module.name.split(".", 1)[1]}:{owner.name}.__eq__', f'compares {sorted(compared)}',
+                  f'{owner.name}.__eq__ (used by {c.name}) compares {sorted(compared)} but not the raw text: tokens with different text and the same '
+                  f'derived value compare equal, and through the token-list comparison of RawTreeModel.__eq__ so do whole models whose printed '
+                  f'text differs', eq.where, note=f'compares {sorted(compared)}')
     if n < 1:
         raise AnalysisError('EQ-TEXT: no token __eq__ found')
 
